@@ -292,3 +292,101 @@ def mutate(rng, m):
         else:
             m[i:i] = rng.choice([b'\n\n', b'\n \n', b'--b\n', b'--b--\n', b'Content-Type: multipart/mixed; boundary="b"\n'])
     return bytes(x if x else 1 for x in m)
+
+
+# ---- 8-bit bytes inside transfer-encoded content -------------------------------------------------------------------------------
+# Mail that passed an 8-bit unclean hop, a mailing list that appends a Latin-1 / UTF-8 footer after the encoded block, a flipped top
+# bit: bytes 0x80-0xff where the transfer encoding allows 7-bit characters only.  RFC 2045 6.8: they are not in the base64
+# alphabet (the body is undecodable); in quoted-printable and the identity encodings every byte that is no `=XY` / `=\n` is data.
+# A decoder that classifies bytes by table lookup, <ctype.h> or after masking / sign extension sees them as something else: hence
+# every value, at every place of the encoding a decoder treats differently (first / inner / last character of the data, the
+# padding, a line of its own before or after the block, behind `=` in quoted-printable).
+B64_ALPHABET = b'ABCDEFGHIJKLMNOPQRSTUVWXYZabcdefghijklmnopqrstuvwxyz0123456789+/'
+EIGHTBIT = list(range(0x80, 0x100))
+
+
+def eightbit_class(b):
+    """What is left of the byte when its top bit is dropped: 'alphabet' (a base64 character), 'pad' (=), 'space' (isspace in the C
+    locale), 'nul', 'other'."""
+    c = b & 0x7f
+    if c in B64_ALPHABET:
+        return 'alphabet'
+    if c == 0x3d:
+        return 'pad'
+    if c in b' \t\n\r\x0b\x0c':
+        return 'space'
+    if c == 0:
+        return 'nul'
+    return 'other'
+
+
+def b64_with_8bit(text, b, width=76):
+    """The base64 encoding of `text` (lines of `width` characters) with the byte `b` put where no 8-bit byte may be:
+    -> [(label, body bytes)].  In the `replace-*` / `quantum` variants the byte REPLACES characters, so the number of characters is
+    still a multiple of four; every variant is undecodable base64."""
+    e = base64.b64encode(text)
+    n = len(e.rstrip(b'='))             # data characters
+    c = bytes([b])
+
+    def lines(s):
+        return b''.join(s[i:i + width] + b'\n' for i in range(0, len(s), width)) or b'\n'
+
+    def put(i, k=1):
+        return lines(e[:i] + c * k + e[i + k:])
+
+    out = [('replace-first', put(0)), ('replace-middle', put(n // 2)), ('replace-last', put(n - 1))]
+    if n >= 12:
+        q = (n // 8) * 4
+        out.append(('quantum', put(q, 4)))                                   # a whole group of four
+    if n > width:
+        out.append(('replace-line-start', put(width)))                       # first character of the second line
+        out.append(('replace-line-end', put(width - 1)))
+    out.append(('insert-middle', lines(e[:n // 2] + c + e[n // 2:])))         # one character too many
+    npad = len(e) - n
+    if npad >= 1:
+        out.append(('pad-first', lines(e[:n] + c + e[n + 1:])))               # instead of the (first) =
+        out.append(('pad-after', lines(e + c)))
+        out.append(('pad-before', lines(e[:n] + c + e[n:])))
+    if npad == 2:
+        out.append(('pad-second', lines(e[:n + 1] + c)))
+        out.append(('pad-between', lines(e[:n + 1] + c + e[n + 1:])))
+    good = lines(e)
+    out.append(('trailer-4', good + c * 4 + b'\n'))                           # a line of its own after a valid block
+    out.append(('trailer-1', good + c + b'\n'))
+    out.append(('trailer-text', good + b'Gr' + c + b'\xdfe aus K' + c + b'ln\n'))
+    out.append(('trailer-no-newline', good + c * 4))
+    out.append(('leader-4', c * 4 + b'\n' + good))
+    return out
+
+
+def qp_with_8bit(text, b):
+    """Quoted-printable encoding of `text` with the literal byte `b` in it: -> [(label, body bytes)].  Nothing here is an error: the
+    byte is data; behind `=` it spoils the escape, which then is data as well."""
+    e = quopri.encodestring(text)
+    c = bytes([b])
+    m = len(e) // 2
+    while 0 < m < len(e) and (e[m - 1:m] == b'=' or e[m - 2:m - 1] == b'='):   # not inside an escape
+        m += 1
+    out = [('literal-first', c + e), ('literal-middle', e[:m] + c + e[m:]), ('literal-last', e + c), ('literal-line', e + c * 3 + b'\n'),
+           ('escape-first-digit', e + b'=' + c + b'1\n'), ('escape-second-digit', e + b'=4' + c + b'\n'), ('escape-both', e + b'=' + c + c + b'\n'),
+           ('before-soft-break', e + c + b'=\nrest\n'), ('after-soft-break', e + b'a=\n' + c + b'\n'), ('equals-at-end', e + c + b'=')]
+    return out
+
+
+def entity(ctype, cte, body, extra=()):
+    """Headers + empty line + body of one MIME entity."""
+    h = []
+    if ctype:
+        h.append(b'Content-Type: ' + ctype)
+    if cte:
+        h.append(b'Content-Transfer-Encoding: ' + cte)
+    h += list(extra)
+    return b''.join(x + b'\n' for x in h) + b'\n' + body
+
+
+def multipart(subtype, bnd, parts, headers=(), preamble=b'', epilogue=b''):
+    """A multipart entity over the given parts (each: bytes of an entity); a part that does not end in a newline gets one."""
+    out = b''.join(x + b'\n' for x in headers) + b'Content-Type: multipart/' + subtype + b'; boundary="' + bnd + b'"\n\n' + preamble
+    for p in parts:
+        out += b'--' + bnd + b'\n' + (p if p.endswith(b'\n') else p + b'\n')
+    return out + b'--' + bnd + b'--\n' + epilogue
